@@ -78,24 +78,7 @@ pub async fn check_struct(ds: &Dataset) -> (Option<StructSummary>, Vec<String>) 
                 }
             }
         }
-        // every live leaf-or-parent field is stored somewhere (top-level fields at least)
-        for f in m.schema.fields.iter() {
-            if !stored.contains(&f.id) && !f.is_blob() {
-                // nested parents are stored with their children in v2; only flag when no
-                // descendant is stored either
-                let any_desc = m
-                    .schema
-                    .fields_pre_order()
-                    .filter(|x| x.id == f.id || is_descendant(f, x.id))
-                    .any(|x| stored.contains(&x.id));
-                if !any_desc {
-                    problems.push(format!(
-                        "fragment {}: schema field {} (id {}) stored by no data file",
-                        frag.id, f.name, f.id
-                    ));
-                }
-            }
-        }
+        // (a schema field stored by no data file is legitimate: metadata-only all-null columns)
         let ff = match ds.get_fragment(frag.id as usize) {
             Some(ff) => ff,
             None => {
@@ -255,12 +238,6 @@ pub async fn check_struct(ds: &Dataset) -> (Option<StructSummary>, Vec<String>) 
         config: m.config.iter().map(|(k, v)| (k.clone(), v.clone())).collect(),
     };
     (Some(summary), problems)
-}
-
-fn is_descendant(root: &lance_core::datatypes::Field, id: i32) -> bool {
-    root.children
-        .iter()
-        .any(|c| c.id == id || is_descendant(c, id))
 }
 
 pub fn hash_of<T: Serialize>(t: &T) -> u64 {
